@@ -283,7 +283,7 @@ pub fn run(tier: Tier) -> i32 {
             light.push(p.apply(m));
         }
     }
-    let epf = EpFamily { extra: Extra::None };
+    let epf = EpFamily { extra: Extra::None, pre_push: false };
     light.extend((0..epf.size()).step_by(tier.pick(7, 1)).filter_map(|i| epf.get(i)));
     light.retain(|p| seen.insert(*p));
     run.note("positions_with_grammar_and_safety", json!(full.len()));
